@@ -5,10 +5,37 @@
    Proofs/C19InheritTables.v.                                                 *)
 From Coq Require Import NArith ZArith List String Bool.
 From V Require Import Base.UString Model.SchemaTypes Spec.SchemaRefine Model.RegistryBuilder
-                      Gen.Tables Gen.SpecTables Proofs.SchemaTables Proofs.C19Inherit Proofs.C19InheritTables.
-From V Require Model.Registry.
+                      Gen.Tables Gen.SpecTables Proofs.SchemaTables Proofs.C19Inherit Proofs.C19InheritRefine Proofs.C19InheritTables.
+From V Require Model.Registry Proofs.NamingFacts.
 Import ListNotations.
 
+(* the table passes the refinement check of Spec/SchemaRefine.v against itself: header, no opaque
+   constraint, every value rule contained, every required property always present *)
+Theorem custom_refines_itself : forall bv k V n xt user cn,
+  forallb slot_kind_ok user = true ->
+  class_refine_failures (custom_cls bv k V n xt user cn) (custom_cls bv k V n xt user cn) = [].
+Proof. exact custom_refines_itself_lemma. Qed.
+Print Assumptions custom_refines_itself.
+
+(* the side condition of the generic C02 theorem survives the addition of a fresh class and its
+   registry row on both sides *)
+Theorem world_refines_add : forall w sp k V n c c',
+  world_refines w sp = true ->
+  find_class (wclasses sp) (cid c) = None -> cid c' = cid c ->
+  class_refine_failures c c' = [] ->
+  name_ok_for k n = true ->
+  world_refines (world_add w k V n c) (world_add sp k V n c') = true.
+Proof. exact world_refines_add_lemma. Qed.
+Print Assumptions world_refines_add.
+
+(* ... and a name accepted by a registration under the repaired recognisers is a legal type name
+   in the schema family's sense (Spec/StixValid.valid_type_name) *)
+Theorem registered_name_ok : forall vt r k V n xt user cn r',
+  NamingFacts.strict_type_rule vt (version_of_ver V) ->
+  Registry.decorate vt r (regreq_of k V n xt user cn) = (r', Registry.Done) ->
+  name_ok_for k n = true.
+Proof. exact registered_name_ok_lemma. Qed.
+Print Assumptions registered_name_ok.
 (* the standard properties a decorator writes around the user's are, slot for slot (kind, required,
    default), those the frozen specification gives the built-in type of the same family and version *)
 Theorem standard_properties_are_the_specifications : forall k V, (k = CObject \/ k = CObservable) -> standard_in spec k V.
@@ -27,10 +54,12 @@ Proof. exact standard_slots_name_lemma. Qed.
 Print Assumptions standard_properties_depend_on_name_uniformly.
 
 (* the side condition of the generic C02 theorem (`world_refines`, discharged for the built-in
-   tables in Props/C02.v) holds for the library world extended by ANY registered custom type *)
+   tables in Props/C02.v) holds for the library world extended by ANY registered custom type whose
+   name is a legal type name (Props/C19.v, registered_name_ok: every name a registration accepts
+   under the repaired recognisers is) *)
 Theorem extended_world_refines : forall bv k V n xt user cn,
-  forallb slot_kind_ok user = true ->
+  forallb slot_kind_ok user = true -> name_ok_for k n = true ->
   world_refines (world_add lib k V n (custom_cls bv k V n xt user cn))
                 (world_add spec_relaxed k V n (custom_cls bv k V n xt user cn)) = true.
-Proof. intros. apply extended_world_refines_lemma; [assumption | apply custom_cid_fresh_lemma]. Qed.
+Proof. intros. apply extended_world_refines_lemma; [assumption | apply custom_cid_fresh_lemma | assumption]. Qed.
 Print Assumptions extended_world_refines.
